@@ -34,7 +34,10 @@ TRANSLATE_FALLBACK = (
     "order of return_listen_sockets, the floor and single answer of shut_down_sessions and the quiescence test of "
     "Stream::is_quiesced decide the black-box scenarios handover / softstop / softstop_h2 that run in every tier "
     "(inode identity of the handed-over sockets, no early OK or exit with a request or an H2 stream pending, exactly one "
-    "final OK); an unreadable piece of Gen.v is generated from the committed snapshot props/c10_facts.json")
+    "final OK); an unreadable piece of Gen.v is generated from the committed snapshot props/c10_facts.json.  NOT soft: "
+    "the way Mux::shutting_down consults is_quiesced / has_pending_write, a found-but-different comparison, order or "
+    "protocol set -- those fail the check.  Every soft pin has a probe harmless/C10_*_unreadable_changed (the fact "
+    "changed in a spelling the translator cannot read) that the check must answer with exit 1")
 
 FACTS = os.path.join(os.path.dirname(os.path.abspath(__file__)), "c10_facts.json")
 PERMANENT = {"HTTPListen", "HTTPSListen", "TCPListen", "UDPListen", "Channel", "Metrics", "Timer"}
@@ -65,8 +68,8 @@ def read_facts(fails):
             fails.append("unreadable: scm_socket.rs: the size of receive_listeners' message buffer (model: MAX_BYTES_OUT = %d)" % f["nbytes"])
         elif f["nbytes"] not in sizes:
             fails.append("scm_socket.rs: receive_listeners' message buffer holds %s bytes, MAX_BYTES_OUT is %d" % (sizes, f["nbytes"]))
-    fsz = [rsread.evalc(m.group(1), table) for m in re.finditer(r"\[\s*(?:RawFd|0\w*)\s*;\s*([^\]]+)\]", rb)]
-    fsz = [x for x in fsz if x is not None and x != f["nbytes"]]
+    fsz = [rsread.evalc(m.group(1), table) for m in re.finditer(r"\[\s*(?:RawFd|0\w*)\s*;\s*([^\]]+)\]", rsread.body(scm, "receive_listeners") or "")]
+    fsz = [x for x in fsz if x is not None and x != f["nbytes"]] or [x for x in sizes if x is not None and x != f["nbytes"]]
     if f["fds"] is not None:
         if not fsz:
             fails.append("unreadable: scm_socket.rs: the size of receive_listeners' descriptor array (model: MAX_FDS_OUT = %d)" % f["fds"])
@@ -226,16 +229,16 @@ def quiesced_shape(fails):
             sd = cand
             break
     if sd is None:
-        fails.append("unreadable: mux/mod.rs: the shutting_down that consults Stream::is_quiesced (model: a linked stream keeps the session, an unlinked one unless quiesced, a pending frontend write keeps it)")
+        fails.append("mux/mod.rs: no shutting_down consults Stream::is_quiesced any more (model: a linked stream keeps the session, an unlinked one unless quiesced, a pending frontend write keeps it)")
     else:
         flag = re.search(r"let\s+mut\s+(\w+)\s*=\s*true\s*;", sd)
         v = flag.group(1) if flag else r"\w+"
         if not re.search(r"Linked\s*\(\s*_\s*\)\s*=>\s*\{?\s*%s\s*=\s*false" % v, sd):
-            fails.append("unreadable: mux/mod.rs: shutting_down: a stream linked to a backend keeps the session")
+            fails.append("mux/mod.rs: shutting_down: a stream linked to a backend no longer keeps the session (`Linked(_) => <flag> = false` not found)")
         if not re.search(r"Unlinked\s*=>.*?is_quiesced\s*\(\).*?%s\s*=\s*false" % v, sd, re.S):
-            fails.append("unreadable: mux/mod.rs: shutting_down: an unlinked stream keeps the session unless quiesced")
+            fails.append("mux/mod.rs: shutting_down: an unlinked stream no longer keeps the session unless quiesced (`Unlinked => .. is_quiesced() .. <flag> = false` not found)")
         if not re.search(r"has_pending_write\s*\(\)", sd):
-            fails.append("unreadable: mux/mod.rs: shutting_down: a pending frontend write keeps the session")
+            fails.append("mux/mod.rs: shutting_down: a pending frontend write no longer keeps the session (has_pending_write() not consulted)")
     return (list(qf) if qf else None), (list(qb) if qb else None), qand
 
 
@@ -409,6 +412,7 @@ def extra_stage(tier, rng, work):
 
     outs, problems = run(cases, "bb")
     fails, viols, inconclusive, done = list(problems), [], [], 0
+    reproduced = 0
     known = vlib.load_known()
     for c in cases:
         o = outs.get(c.id)
@@ -420,19 +424,27 @@ def extra_stage(tier, rng, work):
             continue
         done += 1
         vs = list(o["viol"]) + ([("panic", o["panic"])] if o["panic"] is not None else [])
+        hit = False
+        again = None            # the scenario is re-run (twice) once per case, whatever the number of its findings
         for v in vs:
             if vlib.match_known(ID, v[0], v[1], known):
                 viols.append((c, v[0], v[1]))
                 continue
-            again = []
-            for k in (1, 2):
-                o2, _ = run([c], "bb_retry%d" % k)
-                oo = o2.get(c.id) or dict(viol=[], panic=None)
-                again.append(set(x[0] for x in oo["viol"]))
+            if again is None and reproduced >= 2:
+                again = [set([x[0] for x in vs])] * 2       # two scenarios already reproduced: no more re-runs
+            if again is None:
+                again = []
+                for k in (1, 2):
+                    o2, _ = run([c], "bb_retry%d" % k)
+                    oo = o2.get(c.id) or dict(viol=[], panic=None)
+                    again.append(set(x[0] for x in oo["viol"]) | ({"panic"} if oo.get("panic") is not None else set()))
             if all(v[0] in a for a in again):
                 viols.append((c, v[0], v[1]))
+                hit = True
             else:
                 inconclusive.append("%s: [%s] did not reproduce" % (c.id, v[0]))
+        if hit:
+            reproduced += 1
     return dict(failures=fails, viols=viols,
                 coverage=dict(blackbox_runs=len(cases), blackbox_completed=done, blackbox_inconclusive=inconclusive))
 
